@@ -8,11 +8,8 @@ rc=0
 for p in /verif/selftest/neutral/*.diff; do
   git -C /repo apply $p || { echo "cannot apply $p"; rc=2; continue; }
   (cd /repo && GOFLAGS=-mod=mod GOPROXY=off GOSUMDB=off GOTOOLCHAIN=local go build ./... ) || { echo "$p does not build"; rc=2; }
-  bad=""
-  for id in $ids; do
-    out=$(/verif/bin/verifsa check $id -root /tmp/verif-seedrun 2>&1)
-    if echo "$out" | grep -q '^VIOLATION'; then bad="$bad $id"; echo "$out" | grep -B1 '^VIOLATION' | grep -v '^VIOLATION\|^--' | cut -c1-300 | sed "s/^/   [$id] /" | head -3; fi
-  done
+  bad=$(echo $ids | tr ' ' '\n' | xargs -P 10 -I{} sh -c 'out=$(/verif/bin/verifsa check {} -root /tmp/verif-seedrun 2>&1); if echo "$out" | grep -q "^VIOLATION"; then echo "$out" | grep -B1 "^VIOLATION" | grep -v "^VIOLATION\|^--" | cut -c1-300 | sed "s/^/   [{}] /" | head -3 >&2; echo {}; fi' | sort | tr '\n' ' ')
+  bad=${bad:+ $bad}
   git -C /repo checkout -- . ; git -C /repo clean -fdq
   echo "NEUTRAL $(basename $p): ${bad:+FALSE ALARM in$bad}${bad:-silent}"
   [ -n "$bad" ] && rc=1
